@@ -1791,9 +1791,13 @@ class DynDiGraph(nx.DiGraph):
                             pass
 
         else:
-            for it in self.interactions_iter():
-                for t in it[2]['t']:
-                    H.add_interaction(it[0], it[1], t=t[0], e=t[1])
+            # the two directions of a pair feed one timeline: merge their intervals chronologically
+            spans = {}
+            for u, v, d in self.out_interactions_iter():
+                spans.setdefault((v, u) if (v, u) in spans else (u, v), []).extend(d['t'])
+            for (u, v), ts in spans.items():
+                for t in sorted(ts):
+                    H.add_interaction(u, v, t=t[0], e=t[1] + 1)
 
         H.graph = deepcopy(self.graph)
         H._node = deepcopy(self._node)
